@@ -9,9 +9,14 @@ from toqito.channels import partial_transpose, realignment
 
 from .. import gen
 from ..exact import NotExact, call, present, split_int
+from .c02 import VAR_KINDS_RECT, VAR_KINDS_SQUARE, determine_variable_branch
 
 RULE = ("configurations (row/column dims, subset S and its form, dim argument form, dtype, numeric or cvxpy Variable) from the seeded generator, "
-        "all subsets for small dims (thorough); inputs arange-labelled so equality of outputs is equality of index maps; non-trivial = some "
+        "all subsets for small dims (thorough); inputs arange-labelled so equality of outputs is equality of index maps; the cvxpy Variable branch "
+        "(real / complex / symmetric / hermitian / PSD, square and rectangular) is determined completely by evaluating the returned expression on a "
+        "basis of the variable's domain and compared with the Lean model run on the free expression type; raw argument forms (omitted / scalar / "
+        "one-element / vector / two-row dim, None / int / list sys incl. repeated, negative, out-of-range entries, wrong products; realignment: "
+        "omitted / int / [a,b] / two-row) are decoded by the Lean model and acceptance as well as the result must agree; non-trivial = some "
         "transposed and some untouched subsystem with dimension > 1 (pt), both local dims > 1 (realignment); distinct = configuration hash")
 ASSUMPTIONS = ["NumPy data-movement primitives are dtype-parametric"]
 
@@ -42,6 +47,9 @@ def check_pt(ctx, rd, cd, sys_arg, dim_form, dtype, variable=False):
     elif dim_form == "list1":
         dim_py = [int(rd[0])]
         dim_js = [int(rd[0])]
+    elif dim_form == "scalar":
+        dim_py = int(rd[0])
+        dim_js = int(rd[0])
     else:
         dim_py, dim_js = None, None
     if isinstance(sys_arg, np.ndarray):
@@ -71,9 +79,10 @@ def check_pt(ctx, rd, cd, sys_arg, dim_form, dtype, variable=False):
 
 def compare(ctx, what, desc, impl, model, thm):
     if "reject" in model:
+        ctx.count("model-rejects/" + model["reject"])
         if impl[0] != "ok":
             return True
-        return not ctx.violation(f"{what}: model rejects ({model['reject']}) but implementation returns", {"function": what, "args": desc})
+        return not ctx.violation(f"{what}: model rejects ({model['reject']}) but implementation returns", {"function": what, "args": desc, "theorem": "pT_args_two / realign_args_two"})
     if impl[0] != "ok":
         return not ctx.violation(f"{what}: implementation {impl[0]} ({impl[1]}) on a valid call", {"function": what, "args": desc, "theorem": thm})
     try:
@@ -106,7 +115,7 @@ def check_realign(ctx, r0, r1, c0, c1, dim_form, dtype):
     impl = call(realignment, present(ctx.rng, X, allow_dtype=False), dim_py)
     desc = {"fn": "realignment", "rdim": [r0, r1], "cdim": [c0, c1], "dim_form": dim_form, "dtype": dtype}
     ctx.case(desc, min(r0, r1, c0, c1) > 1, f"realign/{dim_form}/{'square' if (r0, r1) == (c0, c1) else 'rect'}")
-    model = ctx.lean().ask("realignment", {"data": list(range(R * C)), "rdim": [r0, r1], "cdim": [c0, c1]})
+    model = ctx.lean().ask("realignment", {"rows": R, "cols": C, "data": list(range(R * C)), "dim": dim_py})
     ok = compare(ctx, "realignment", desc, impl, model, "realign_eq_spec")
     if ok and impl[0] == "ok":
         # product form on the implementation side: R(A (x) B) = vec_r(A) vec_r(B)^T (exact integers)
@@ -116,6 +125,50 @@ def check_realign(ctx, r0, r1, c0, c1, dim_form, dtype):
         if out[0] != "ok" or not np.array_equal(out[1], np.outer(A.reshape(-1), B.reshape(-1))):
             ctx.violation("realignment(A (x) B) differs from vec(A) vec(B)^T", {"function": "realignment", "args": desc, "A": A, "B": B, "theorem": "realign_kron"})
     return ok
+
+
+def check_pt_var(ctx, rd, cd, sys_arg, dim_form, kind):
+    """cvxpy Variable branch of partial_transpose, determined completely on a basis of the variable's domain"""
+    R, C = int(np.prod(rd)), int(np.prod(cd))
+    if dim_form == "list":
+        dim_py = dim_js = list(rd)
+    elif dim_form == "two":
+        dim_py = dim_js = [list(rd), list(cd)]
+    elif dim_form == "two_array":
+        dim_py, dim_js = np.array([list(rd), list(cd)]), [list(rd), list(cd)]
+    elif dim_form == "scalar":
+        dim_py = dim_js = int(rd[0])
+    else:
+        dim_py = dim_js = None
+    sys_js = [int(x) for x in sys_arg] if isinstance(sys_arg, np.ndarray) else sys_arg
+    desc = {"fn": "partial_transpose_var", "rd": rd, "cd": cd, "sys": sys_js, "sys_form": type(sys_arg).__name__, "dim_form": dim_form, "kind": kind}
+    sl = [sys_js] if isinstance(sys_js, int) else ([1] if sys_js is None else list(sys_js))
+    try:
+        nontriv = any(rd[s] * cd[s] > 1 for s in sl) and any(rd[k] * cd[k] > 1 for k in range(len(rd)) if k not in sl) and R * C > 4
+    except IndexError:
+        nontriv = False
+    ctx.case(desc, nontriv, f"pt-var/{kind}/{dim_form}/{'square' if rd == cd else 'rect'}")
+    return determine_variable_branch(ctx, "partial_transpose", partial_transpose, "partial_transpose_sym",
+                                     {"rows": R, "cols": C, "sys": sys_js, "dim": dim_js}, (sys_arg, dim_py), kind, R, C, desc, "pT_cvx_value / pT_cvx_atom")
+
+
+def check_pt_raw(ctx, R, C, sys_arg, dim_py, branch):
+    """any call partial_transpose(X, sys, dim) with raw arguments (valid or not): acceptance and result must agree with the model"""
+    X = _label(R, C, "int64")
+    impl = call(partial_transpose, X, sys_arg, dim_py)
+    desc = {"fn": "partial_transpose_raw", "R": R, "C": C, "sys": sys_arg, "dim": dim_py, "dtype": "int64"}
+    model = ctx.lean().ask("partial_transpose", {"rows": R, "cols": C, "data": list(range(R * C)), "sys": sys_arg, "dim": dim_py})
+    ctx.case(desc, "reject" not in model and R * C > 4, branch + ("/rejected" if "reject" in model else "/accepted"))
+    return compare(ctx, "partial_transpose", desc, impl, model, "pT_args_two / pT_args_scalar / pT_args_omitted")
+
+
+def check_realign_raw(ctx, R, C, dim_py, branch):
+    X = _label(R, C, "int64")
+    impl = call(realignment, X, dim_py)
+    desc = {"fn": "realignment_raw", "R": R, "C": C, "dim": dim_py, "dtype": "int64"}
+    model = ctx.lean().ask("realignment", {"rows": R, "cols": C, "data": list(range(R * C)), "dim": dim_py})
+    ctx.case(desc, "reject" not in model, branch + ("/rejected" if "reject" in model else "/accepted"))
+    return compare(ctx, "realignment", desc, impl, model, "realign_args_two / realign_args_forms")
 
 
 def rand_subset(rng, n):
@@ -174,6 +227,98 @@ def run(ctx, model_ok=True):
             check_realign(ctx, r0, r1, r0, r1, "scalar", "float64")
         else:
             check_realign(ctx, r0, r0, r0, r0, "omitted", "float64")  # omitted dim: square inputs only (docstring: all dimensions equal)
+    # cvxpy Variable branch determined completely on a basis (square and rectangular, all variable kinds)
+    vr = rng.spawn(1)[0]
+    check_pt_var(ctx, [2, 3], [3, 2], [1], "two", "real")
+    check_pt_var(ctx, [2, 2, 2], [2, 2, 2], [0, 1], "list", "hermitian")
+    check_pt_var(ctx, [2, 2], [2, 2], None, "omitted", "complex")
+    for it in range(40 if quick else 300):
+        n = int(vr.choice([2, 2, 3]))
+        square = bool(vr.integers(3) > 0)
+        rd = gen.rand_dims(vr, n, 1 if square else 2, 3, 12)
+        if int(np.prod(rd)) < 2:
+            continue
+        cd = list(rd) if square else gen.rand_dims(vr, n, 2, 3, 12)
+        S = rand_subset(vr, n)
+        form = int(vr.integers(3))
+        sys_arg = S[0] if (len(S) == 1 and form == 0) else (np.array(S) if form == 1 else S)
+        if square:
+            check_pt_var(ctx, rd, cd, sys_arg, str(vr.choice(["list", "two", "two_array"])), str(vr.choice(VAR_KINDS_SQUARE)))
+        else:
+            check_pt_var(ctx, rd, cd, sys_arg, str(vr.choice(["two", "two_array"])), str(vr.choice(VAR_KINDS_RECT)))
+    for it in range(10 if quick else 60):
+        d0, d1 = int(vr.integers(1, 4)), int(vr.integers(1, 4))
+        if d0 * d1 < 2:
+            continue
+        check_pt_var(ctx, [d0, d1], [d0, d1], [None, 0, 1, [0]][int(vr.integers(4))], "scalar", str(vr.choice(VAR_KINDS_SQUARE)))
+        if d0 > 1:
+            check_pt_var(ctx, [d0, d0], [d0, d0], [None, 0, [1]][int(vr.integers(3))], "omitted", str(vr.choice(VAR_KINDS_SQUARE)))
+    # raw argument forms, accepted and rejected: the model decodes them (Toq/Model/PartialOpsArgs.lean)
+    ar = rng.spawn(1)[0]
+    for R, C, s_, d_ in [(6, 6, 0, [[2], [3]]), (2, 3, 0, [[2], [3]]), (6, 6, 0, [3]), (6, 6, 0, 3), (6, 6, 0, 4), (6, 6, None, None), (4, 9, None, None), (4, 9, 0, None),
+                         (6, 6, [-1], [2, 3]), (6, 6, -1, [2, 3]), (6, 6, [1, 1], [2, 3]), (6, 6, [2], [2, 3]), (6, 6, [-3], [2, 3]), (6, 6, [0], [[2, 3], [6]]),
+                         (4, 9, [0], [2]), (4, 9, [1], [[2, 2], [3, 3]]), (4, 9, [1], [[2, 2], [3, 2]]), (8, 8, [0, 2, 1], [2, 2, 2]), (8, 8, [0, 2, 2], [2, 2, 2]),
+                         (6, 4, [1, 0], [[2, 3], [2, 2]]), (6, 4, [1, 0], [[3, 2], [2, 2]])]:
+        check_pt_raw(ctx, R, C, s_, d_, "args/corpus")
+    for it in range(150 if quick else 1500):
+        kind = int(ar.integers(5))
+        if kind == 0:      # omitted dim on any shape (perfect squares and not)
+            sq = [4, 9, 16]
+            R = int(ar.choice(sq)) if ar.integers(4) else int(ar.integers(2, 17))
+            C = int(ar.choice(sq)) if ar.integers(4) else int(ar.integers(2, 17))
+            if min(R, C) < 2:    # a row / column vector is not an operator on a tensor product (permute_systems' vector branch)
+                continue
+            check_pt_raw(ctx, R, C, [None, 0, 1, [0], [1], [1, 0], 2, -1][int(ar.integers(8))], None, "args/dim-omitted")
+        elif kind == 1:    # scalar / one-element dim, dividing or not, square input or not
+            R = int(ar.integers(2, 17))
+            C = R if ar.integers(3) else int(ar.integers(2, 17))
+            d = int(ar.choice([x for x in range(1, R + 1) if R % x == 0])) if ar.integers(2) else int(ar.integers(1, R + 2))
+            check_pt_raw(ctx, R, C, [None, 0, 1, [0], [1], [0, 1]][int(ar.integers(6))], d if ar.integers(2) else [d], "args/dim-scalar")
+        else:              # list / two-row dim, sys with repeated / negative / out-of-range entries, wrong products
+            n = int(ar.integers(2, 5))
+            square = bool(ar.integers(2))
+            # the property quantifies over local dims >= 2 for rectangular inputs (a dimension-1 factor can turn an intermediate
+            # result into a row / column vector, which permute_systems treats as a vector)
+            rd = gen.rand_dims(ar, n, 1 if square else 2, 3, 24)
+            cd = list(rd) if square else gen.rand_dims(ar, n, 2, 3, 24)
+            R, C = int(np.prod(rd)), int(np.prod(cd))
+            if min(R, C) < 2:
+                continue
+            k = int(ar.integers(1, n + 1))
+            sys_l = [int(x) for x in ar.integers(-1 if kind == 2 else 0, n + (1 if kind == 2 else 0), size=k)] if kind in (2, 3) else [int(x) for x in ar.permutation(n)[:k]]
+            rd2, cd2 = list(rd), list(cd)
+            if kind == 4 and ar.integers(3) == 0:
+                (rd2 if ar.integers(2) else cd2)[int(ar.integers(n))] += 1      # product no longer matches
+            sys_arg = sys_l[0] if len(sys_l) == 1 and ar.integers(2) else sys_l
+            check_pt_raw(ctx, R, C, sys_arg, rd2 if (square and rd2 == cd2 and ar.integers(2)) else [rd2, cd2], "args/list")
+    for R, C, d_ in [(4, 4, None), (4, 9, None), (9, 9, None), (6, 6, None), (6, 6, 2), (6, 6, 3), (6, 6, 4), (6, 6, [2, 3]), (6, 6, [3, 3]), (4, 9, [[2, 2], [3, 3]]),
+                     (4, 9, [[2, 2], [3, 2]]), (6, 4, [[2, 3], [2, 2]]), (6, 4, [[2, 2], [2, 2]]), (4, 9, 2), (12, 12, 5)]:
+        check_realign_raw(ctx, R, C, d_, "args-realign/corpus")
+    for it in range(60 if quick else 600):
+        r0, r1, c0, c1 = [int(x) for x in ar.integers(2, 5, size=4)]    # realignment: local dimensions at least 2
+        kind = int(ar.integers(4))
+        if kind == 0:
+            R = int(ar.choice([4, 9, 16])) if ar.integers(3) else int(ar.integers(2, 17))
+            C = R if ar.integers(3) else int(ar.choice([4, 9, 16]))
+            check_realign_raw(ctx, R, C, None, "args-realign/omitted")
+        elif kind == 1:
+            R = r0 * r1
+            C = R if ar.integers(3) else c0 * c1
+            if min(R, C) < 2:
+                continue
+            check_realign_raw(ctx, R, C, int(ar.integers(2, R)), "args-realign/scalar")     # 1 < d < R: no local dimension 1
+        elif kind == 2:
+            C = r0 * r1 if ar.integers(3) else c0 * c1
+            if min(r0 * r1, C) < 2:
+                continue
+            check_realign_raw(ctx, r0 * r1, C, [r0, r1], "args-realign/pair")
+        else:
+            if min(r0 * r1, c0 * c1) < 2:
+                continue
+            R, C = r0 * r1, c0 * c1
+            if ar.integers(3) == 0:
+                R += 1
+            check_realign_raw(ctx, R, C, [[r0, r1], [c0, c1]], "args-realign/two")
     if not quick:
         for n in range(1, 5):
             for dims in gen.all_dim_vectors(n, 1, 4, 32):
@@ -189,6 +334,13 @@ def run(ctx, model_ok=True):
 
 def replay(ctx, rec):
     a = rec["args"]
+    if a["fn"] == "partial_transpose_var":
+        s = np.array(a["sys"]) if a.get("sys_form") == "ndarray" else a["sys"]
+        return check_pt_var(ctx, a["rd"], a["cd"], s, a["dim_form"], a["kind"])
+    if a["fn"] == "partial_transpose_raw":
+        return check_pt_raw(ctx, a["R"], a["C"], a["sys"], a["dim"], "replay")
+    if a["fn"] == "realignment_raw":
+        return check_realign_raw(ctx, a["R"], a["C"], a["dim"], "replay")
     if a["fn"] == "partial_transpose":
         s = a["sys"]
         if a.get("sys_form") == "ndarray":
